@@ -1431,4 +1431,277 @@ theorem specContent_den (s : Store) : ∀ g i ps, specContent s g i = .ok ps →
               rw [pairsD_mono (fun o c hc => den_mono s h2 (max f h2) o c hc (Nat.le_max_right _ _))
                 (by omega : h2 + 1 ≤ max f h2 + 1) _ _ _ hpd, ← hr, h]
 
+/-! ### 4e. The walk against `den`
+
+  `Cov`: every node already in `merged` whose content can be unfolded within the budget contributes
+  nothing new under the current chain (all its keys are in the union of the chain) — this is why the
+  `merged` short-cut is invisible.  Nodes whose walk is still in progress are in `merged` too; for
+  them the statement is vacuous because the budget is below their minimal unfolding height. -/
+
+abbrev Chain := List (List String)
+
+def Covd (s : Store) (j : Nat) (S : List String) : Prop :=
+  ∀ h c, den s h (some j) = .ok c → ∀ k ∈ keysOf c, k ∈ S
+
+def Cov (s : Store) (m : List Nat) (S : List String) (hb : Nat) : Prop :=
+  ∀ j ∈ m, ∀ h, h ≤ hb → ∀ c, den s h (some j) = .ok c → ∀ k ∈ keysOf c, k ∈ S
+
+structure PostC (lv : Chain) (st : RangeSt) (c : Pairs) (lv' : Chain) (st' : RangeSt) : Prop where
+  out : st'.out = st.out ++ fresh lv.flatten c
+  su : SU lv lv' (keysOf (fresh lv.flatten c))
+  mono : ∀ x ∈ st.merged, x ∈ st'.merged
+
+structure Post (s : Store) (lv : Chain) (st : RangeSt) (c : Pairs) (lv' : Chain) (st' : RangeSt) : Prop
+    extends PostC lv st c lv' st' where
+  cov : ∀ j ∈ st'.merged, j ∉ st.merged → Covd s j lv'.flatten
+
+def Good (s : Store) (r : Except Err (Chain × RangeSt)) (lv : Chain) (st : RangeSt) (c : Pairs) : Prop :=
+  r = .error .fuel ∨ ∃ lv' st', r = .ok (lv', st') ∧ Post s lv st c lv' st'
+
+def CH (s : Store) (hb : Nat) : Prop :=
+  ∀ o c, den s hb o = .ok c → ∀ F lv st, lv ≠ [] → Cov s st.merged lv.flatten hb →
+    Good s (rangeImpl s F lv st o) lv st c
+
+theorem SU.ne_nil {a b : Chain} {K : List String} (h : SU a b K) (hne : a ≠ []) : b ≠ [] := by
+  intro hb
+  subst hb
+  have := h.1
+  simp only [List.length_nil] at this
+  exact hne (List.length_eq_zero_iff.mp this.symm)
+
+theorem PostC.of_covered {lv : Chain} {st : RangeSt} {c : Pairs} (h : ∀ k ∈ keysOf c, k ∈ lv.flatten) :
+    PostC lv st c lv st := by
+  have := fresh_eq_nil h
+  exact ⟨by rw [this]; simp, by rw [this]; exact SU.refl lv, fun _ hx => hx⟩
+
+theorem PostC.trans {lv lv1 lv2 : Chain} {st st1 st2 : RangeSt} {c1 c2 : Pairs} (hne : lv ≠ [])
+    (h1 : PostC lv st c1 lv1 st1) (h2 : PostC lv1 st1 c2 lv2 st2) : PostC lv st (c1 ++ c2) lv2 st2 := by
+  have hc : fresh lv1.flatten c2 = fresh ((keysOf (fresh lv.flatten c1)).reverse ++ lv.flatten) c2 := by
+    apply fresh_congr
+    intro k
+    rw [h1.su.flatten hne k]
+    simp only [List.mem_append, List.mem_reverse]
+    exact or_comm
+  refine ⟨?_, ?_, fun x hx => h2.mono x (h1.mono x hx)⟩
+  · rw [h2.out, h1.out, fresh_append, hc, List.append_assoc]
+  · have := h1.su.trans h2.su
+    rw [hc] at this
+    rw [fresh_append]
+    simpa [keysOf] using this
+
+theorem keys_sub_of_su {lv lv' : Chain} {c : Pairs} (hne : lv ≠ [])
+    (h : SU lv lv' (keysOf (fresh lv.flatten c))) : ∀ k ∈ keysOf c, k ∈ lv'.flatten := by
+  intro k hk
+  rw [h.flatten hne k]
+  by_cases hin : k ∈ lv.flatten
+  · exact .inl hin
+  · exact .inr (mem_keys_fresh.mpr ⟨hk, hin⟩)
+
+theorem Cov.after {s : Store} {lv lv' : Chain} {st st' : RangeSt} {c : Pairs} {hb : Nat} (hne : lv ≠ [])
+    (hc : Cov s st.merged lv.flatten hb) (hp : Post s lv st c lv' st') : Cov s st'.merged lv'.flatten hb := by
+  intro j hj h hle c' hd k hk
+  by_cases hold : j ∈ st.merged
+  · exact (hp.su.flatten hne k).mpr (.inl (hc j hold h hle c' hd k hk))
+  · exact hp.cov j hj hold h c' hd k hk
+
+theorem Cov.mono {s : Store} {m : List Nat} {S S' : List String} {hb hb' : Nat}
+    (hc : Cov s m S hb) (hS : ∀ k ∈ S, k ∈ S') (hle : hb' ≤ hb) : Cov s m S' hb' :=
+  fun j hj h hh c hd k hk => hS k (hc j hj h (by omega) c hd k hk)
+
+/-- Entering a fresh node `v`: what the walk of its body achieves from the state with `v` marked is what
+    the walk of `v` achieves. -/
+theorem Post.enter {s : Store} {lv lv' : Chain} {st st' : RangeSt} {c : Pairs} {v : Nat} {h : Nat}
+    (hne : lv ≠ []) (hd : den s h (some v) = .ok c)
+    (hp : Post s lv { merged := v :: st.merged, out := st.out } c lv' st') : Post s lv st c lv' st' := by
+  refine ⟨⟨hp.out, hp.su, fun x hx => hp.mono x (List.mem_cons_of_mem _ hx)⟩, fun j hj hnot => ?_⟩
+  by_cases hjv : j = v
+  · subst hjv
+    intro h' c' hd' k hk
+    have := den_functional hd' hd
+    subst this
+    exact keys_sub_of_su hne hp.su k hk
+  · exact hp.cov j hj (by simp only [List.mem_cons, not_or]; exact ⟨hjv, hnot⟩)
+
+theorem Post.yield {s : Store} (lv : Chain) (st : RangeSt) (ck : String) (v : Nat) :
+    Post s lv st [(ck, v)] (yieldChain lv ck).1
+      (if (yieldChain lv ck).2 then { st with out := st.out ++ [(ck, v)] } else st) := by
+  obtain ⟨h1, h2⟩ := yieldChain_spec lv ck
+  by_cases hb : (yieldChain lv ck).2 = true
+  · have hnin := h1.mp hb
+    have hf : fresh lv.flatten [(ck, v)] = [(ck, v)] := by simp [fresh, hnin]
+    rw [if_pos hb] at h2 ⊢
+    refine ⟨⟨by rw [hf], by rw [hf]; exact h2, fun _ hx => hx⟩, fun j hj hn => absurd hj hn⟩
+  · have hin : ck ∈ lv.flatten := by
+      by_cases h' : ck ∈ lv.flatten
+      · exact h'
+      · exact absurd (h1.mpr h') hb
+    have hf : fresh lv.flatten [(ck, v)] = [] := by simp [fresh, hin]
+    rw [if_neg hb] at h2 ⊢
+    refine ⟨⟨by rw [hf]; simp, by rw [hf]; exact h2, fun _ hx => hx⟩, fun j hj hn => absurd hj hn⟩
+
+theorem seq_loop {s : Store} {hb : Nat} (hCH : CH s hb) : ∀ l c, seqD (den s hb) l = .ok c →
+    ∀ F lv st, lv ≠ [] → Cov s st.merged lv.flatten hb → Good s (rangeSeq s F lv st l) lv st c := by
+  intro l
+  induction l with
+  | nil =>
+    intro c hc F lv st hne hcov
+    simp only [seqD, Except.ok.injEq] at hc
+    subst hc
+    cases F with
+    | zero => exact .inl (by simp [rangeSeq])
+    | succ F =>
+      refine .inr ⟨lv, st, by simp [rangeSeq], ⟨PostC.of_covered (by simp), fun j hj hn => absurd hj hn⟩⟩
+  | cons e rest ih =>
+    intro c hc F lv st hne hcov
+    simp only [seqD] at hc
+    cases h1 : den s hb (some e) with
+    | error err => simp [h1] at hc
+    | ok a =>
+      simp only [h1] at hc
+      cases h2 : seqD (den s hb) rest with
+      | error err => simp [h2] at hc
+      | ok b =>
+        simp only [h2, Except.ok.injEq] at hc
+        subst hc
+        cases F with
+        | zero => exact .inl (by simp [rangeSeq])
+        | succ F =>
+          simp only [rangeSeq]
+          rcases hCH _ _ h1 F lv st hne hcov with hf | ⟨lv1, st1, hr, hp1⟩
+          · left; rw [hf]
+          · rw [hr]
+            simp only []
+            have hne1 := hp1.su.ne_nil hne
+            rcases ih b h2 F lv1 st1 hne1 (hcov.after hne hp1) with hf | ⟨lv2, st2, hr2, hp2⟩
+            · exact .inl hf
+            · refine .inr ⟨lv2, st2, hr2, ⟨PostC.trans hne hp1.toPostC hp2.toPostC, fun j hj hn => ?_⟩⟩
+              by_cases hj1 : j ∈ st1.merged
+              · intro h c' hd k hk
+                exact (hp2.su.flatten hne1 k).mpr (.inl (hp1.cov j hj1 hn h c' hd k hk))
+              · exact hp2.cov j hj hj1
+
+theorem PostC.lower {cur cur1 have_ : List String} {outer outer1 : Chain} {st st1 : RangeSt} {c : Pairs}
+    (h : PostC (cur :: outer) st c (cur1 :: outer1) st1)
+    (hI3 : ∀ k, (k ∈ cur ∨ k ∈ outer.flatten) ↔ (k ∈ have_ ∨ k ∈ outer.flatten)) :
+    PostC outer st (fresh have_ c) outer1 st1 := by
+  have hc : fresh (cur :: outer).flatten c = fresh outer.flatten (fresh have_ c) := by
+    rw [fresh_fresh]
+    apply fresh_congr
+    intro k
+    simpa using hI3 k
+  refine ⟨by rw [h.out, hc], ?_, h.mono⟩
+  have := h.su
+  rw [hc] at this
+  exact this.tail
+
+/-- Pass 2 over the pairs of a nested mapping (enclosing chain `outer` non-empty). -/
+theorem pairs_loop {s : Store} {hb g : Nat} (hCH : CH s hb) : ∀ ps have_ Δ,
+    pairsD s (den s hb) g have_ ps = .ok Δ →
+    ∀ F cur outer st ksr, outer ≠ [] → explicitKeys s F ps = .ok ksr →
+    (∀ k, (k ∈ cur ∨ k ∈ outer.flatten) ↔ (k ∈ have_ ∨ k ∈ outer.flatten)) →
+    (∀ k ∈ cur, k ∈ outer.flatten ∨ k ∈ ksr) →
+    Cov s st.merged (cur :: outer).flatten hb →
+    rangePairs s F cur outer st ps = .error .fuel ∨
+    ∃ cur' outer' st', rangePairs s F cur outer st ps = .ok (cur', outer', st') ∧
+      PostC outer st Δ outer' st' ∧ (∀ k ∈ cur, k ∈ outer'.flatten) ∧
+      (∀ j ∈ st'.merged, j ∉ st.merged → Covd s j outer'.flatten) := by
+  intro ps
+  induction ps with
+  | nil =>
+    intro have_ Δ hΔ F cur outer st ksr hne hek hI3 hI4 hcov
+    simp only [pairsD, Except.ok.injEq] at hΔ
+    subst hΔ
+    cases F with
+    | zero => simp [explicitKeys] at hek
+    | succ F =>
+      simp only [explicitKeys, Except.ok.injEq] at hek
+      subst hek
+      refine .inr ⟨cur, outer, st, by simp [rangePairs], PostC.of_covered (by simp), ?_,
+        fun j hj hn => absurd hj hn⟩
+      intro k hk
+      rcases hI4 k hk with h | h
+      · exact h
+      · cases h
+  | cons p rest ih =>
+    obtain ⟨k, v⟩ := p
+    intro have_ Δ hΔ F cur outer st ksr hne hek hI3 hI4 hcov
+    cases F with
+    | zero => simp [explicitKeys] at hek
+    | succ F =>
+      simp only [pairsD] at hΔ
+      simp only [explicitKeys] at hek
+      simp only [rangePairs]
+      cases hs : s[k]? with
+      | none => simp [hs] at hΔ
+      | some kn =>
+        simp only [hs] at hΔ hek ⊢
+        cases hm : kn.isMerge <;> simp only [hm, Bool.false_eq_true, ↓reduceIte] at hΔ hek ⊢
+        case true =>
+          cases h1 : den s hb (some v) with
+          | error e => simp [h1] at hΔ
+          | ok c =>
+            simp only [h1] at hΔ
+            cases h2 : pairsD s (den s hb) g ((keysOf (fresh have_ c)).reverse ++ have_) rest with
+            | error e => simp [h2] at hΔ
+            | ok r =>
+              simp only [h2, Except.ok.injEq] at hΔ
+              subst hΔ
+              rcases hCH _ _ h1 F (cur :: outer) st (by simp) hcov with hf | ⟨lv1, st1, hr, hp1⟩
+              · left; rw [hf]
+              · rw [hr]
+                cases lv1 with
+                | nil => have := hp1.su.1; simp at this
+                | cons cur1 outer1 =>
+                  simp only []
+                  have hlow := hp1.toPostC.lower hI3
+                  have hne1 : outer1 ≠ [] := hlow.su.ne_nil hne
+                  have hcov1 := hcov.after (by simp) hp1
+                  have f0 : ∀ x, (x ∈ cur1 ∨ x ∈ outer1.flatten) ↔
+                      ((x ∈ cur ∨ x ∈ outer.flatten) ∨ x ∈ keysOf (fresh (cur :: outer).flatten c)) := by
+                    intro x
+                    have := hp1.su.flatten (by simp) x
+                    simpa using this
+                  have hc : fresh (cur :: outer).flatten c = fresh outer.flatten (fresh have_ c) := by
+                    rw [fresh_fresh]
+                    apply fresh_congr
+                    intro x
+                    simpa using hI3 x
+                  rw [hc] at f0
+                  have f1 : ∀ x, x ∈ outer1.flatten ↔
+                      (x ∈ outer.flatten ∨ x ∈ keysOf (fresh outer.flatten (fresh have_ c))) :=
+                    fun x => hlow.su.flatten hne x
+                  have fK : ∀ x, x ∈ keysOf (fresh outer.flatten (fresh have_ c)) ↔
+                      (x ∈ keysOf (fresh have_ c) ∧ x ∉ outer.flatten) := fun x => mem_keys_fresh
+                  have hI3' : ∀ x, (x ∈ cur1 ∨ x ∈ outer1.flatten) ↔
+                      (x ∈ (keysOf (fresh have_ c)).reverse ++ have_ ∨ x ∈ outer1.flatten) := by
+                    intro x
+                    have a := f0 x; have b := f1 x; have c' := fK x; have d := hI3 x
+                    simp only [List.mem_append, List.mem_reverse]
+                    grind
+                  have hI4' : ∀ x ∈ cur1, x ∈ outer1.flatten ∨ x ∈ ksr := by
+                    intro x hx
+                    have a := (f0 x).mp (.inl hx); have b := f1 x; have d := hI4 x
+                    grind
+                  rcases ih _ _ h2 F cur1 outer1 st1 ksr hne1 hek hI3' hI4' hcov1 with
+                    hf | ⟨cur', outer', st', hr2, hp2, hco, hcv⟩
+                  · exact .inl hf
+                  · have hsub : ∀ x ∈ outer1.flatten, x ∈ outer'.flatten :=
+                      fun x hx => (hp2.su.flatten hne1 x).mpr (.inl hx)
+                    refine .inr ⟨cur', outer', st', hr2, PostC.trans hne hlow hp2, ?_, ?_⟩
+                    · intro x hx
+                      rcases (f0 x).mpr (.inl (.inl hx)) with a | a
+                      · exact hco x a
+                      · exact hsub x a
+                    · intro j hj hn
+                      by_cases hj1 : j ∈ st1.merged
+                      · intro h c' hd x hx
+                        have := hp1.cov j hj1 hn h c' hd x hx
+                        simp only [List.flatten_cons, List.mem_append] at this
+                        rcases this with this | this
+                        · exact hco x this
+                        · exact hsub x this
+                      · exact hcv j hj hj1
+        case false =>
+          sorry
+
 end GoPipeline.Yaml
